@@ -185,10 +185,19 @@ def r2_private_mutator_call_sites(ctx):
            key="C20-R2|fixed-length-copy")
 
 
-def r3_self_array_writes(ctx):
+IO_TABLE_MODULES = ("bionumpy.io.file_buffers", "bionumpy.io.delimited_buffers", "bionumpy.io.one_line_buffer", "bionumpy.io.multiline_buffer", "bionumpy.io.fastq_buffer",
+                    "bionumpy.io.named_text_buffer", "bionumpy.io.bam", "bionumpy.io.vcf_buffers", "bionumpy.io.buffers.sam", "bionumpy.bnpdataclass.lazybnpdataclass",
+                    "bionumpy.io.parser", "bionumpy.io.npdataclassreader")
+
+
+def r3_self_array_writes(ctx, modules=None):
+    """`modules`: restrict to writes located in these modules (used when the clause is shared with the file-format properties: the tables of a buffer /
+    extractor / lazy table are shared between a table and its selections)"""
     an = _analysis(ctx)
     n = 0
     for key, sites in sorted(an.sites.items()):
+        if modules is not None and key[0] not in modules:
+            continue
         for ws in sites:
             if ws.target[0] != "S" or ws.kind not in ("store", "augassign", "inplace-call", "out=", "callee-mutates", "container-mutation", "container-mutation-via-alias"):
                 continue
@@ -201,7 +210,7 @@ def r3_self_array_writes(ctx):
             ok = (key[0], key[1], ws.target[1]) in ALLOWED_SELF_WRITES
             ctx.ob(ws.where, f"{key[0]}:{key[1]} may not write in place into the receiver's array `self.{ws.target[1]}` (only explicit mutators and initialisers do)",
                    ok, f"[{ws.kind}] `{ws.stmt}`" + (f" via {ws.via}" if ws.via else ""), key=f"C20-R3|{key[0]}|{key[1]}|{ws.target[1]}")
-    ctx.floor("in-place writes into receiver arrays", n, 10)
+    ctx.floor("in-place writes into receiver arrays", n, 10 if modules is None else 2)
 
 
 def r4_cow_views_and_dead_writers(ctx):
@@ -301,13 +310,13 @@ def _immutable_result(expr, fi) -> bool:
     return False
 
 
-def r6_memoised_results(ctx):
+def r6_memoised_results(ctx, modules=None):
     """A memoised function hands the SAME object to every caller with equal arguments.  If that object is a mutable array and reaches code that may
     write into it (it is returned further, stored, or written in place), one caller's write shows up in another caller's 'new' result.  Every
     memoised function must therefore return an immutable value, or its result must be used only as an operand of expressions that build new values."""
     ix = ctx.index
     n = 0
-    memo = [fi for fi in ix.all_functions() if not isinstance(fi.node, ast.Lambda) and _is_memoised(fi)]
+    memo = [fi for fi in ix.all_functions() if not isinstance(fi.node, ast.Lambda) and _is_memoised(fi) and (modules is None or fi.module.name in modules)]
     mutable = []
     for fi in memo:
         n += 1
@@ -371,7 +380,7 @@ def r6_memoised_results(ctx):
                 escapes.append(f"{where}: written in place")
         ctx.ob(fi.where, f"memoised `{fi.qualname}` returns a mutable object: its result is only ever used as an operand (never returned further, stored, or written in place), "
                "so no caller can change what another caller gets", not escapes, "; ".join(escapes[:4]) or f"{uses} uses, all operands", key=f"C20-R6|shared-result|{fi.module.name}|{fi.qualname}")
-    ctx.floor("memoised functions examined", n, 7)
+    ctx.floor("memoised functions examined", n, 7 if modules is None else 0)
 
 
 
